@@ -143,7 +143,7 @@ def mustRefresh (c : Cfg) (d : Detector) (now : Int) (started : Int) (err : ErrK
 /-! ### C09: round robin -/
 
 /-- the slot assigned to the j-th BIND pick (j counted from 1) over n slots -/
-def rrSlot (j n : Nat) : Nat := ((2^32 - 1 + j) % 2^32) % n
+def rrSlot (j n : Nat) : Nat := ((2^64 - 1 + j) % 2^64) % n
 
 /-! ### C20: addresses -/
 
